@@ -300,8 +300,10 @@ def byte_contracts():
         ensures=[("consumes-exactly-the-encoding", lambda c: pos1(c) == pos0(c) + NUML(S(c), pos0(c))),
                  ("returns-only-if-enough-bytes", lambda c: pos0(c) + NUML(S(c), pos0(c)) <= SLEN(S(c)))],
         raises=[Raises(BAD, when=lambda c: pos0(c) + NUML(S(c), pos0(c)) > SLEN(S(c)), label="short stream")],
+        # written as a `while` over the mask bits, the loop is unrolled 9 times with an unwinding ASSERTION (exact: <= 8 extra bytes)
+        loops={("role", "at-most-8-extra-bytes"): RoleSpec(lambda ex, st, it, node: isinstance(node, ast.While), unroll=9, label="at-most-8-extra-bytes")},
         note="7z NUMBER: leading 1-bits of the first byte = number of extra little-endian bytes; "
-             "the 8-step loop is `for i in range(8)` (exact unrolling, no unwinding assumption needed)"))
+             "`for i in range(8)` is unrolled exactly, a `while` form with an unwinding assertion"))
     # ---- _read_boolean_vector: any count (loop invariant over the bit index; the result list by PY-LIST-ORDER)
     def bv_n(c):
         return ops.int_term(c.args["count"])
@@ -348,21 +350,24 @@ def byte_contracts():
         return z3.And(n > 0, p + (n + 7) / 8 > L)
 
     def bv_names(ex):
-        """roles of the loop's locals, read from the AST: the shifted mask, the current byte, the result list"""
+        """roles of the loop's locals, read from the AST: the current byte (assigned from a byte read), the result list, and --
+        if the code keeps one -- the shifted mask"""
         loop = ex._loop_nodes[-1]
         masks = {n.target.id for n in ast.walk(loop) if isinstance(n, ast.AugAssign) and isinstance(n.op, ast.RShift) and isinstance(n.target, ast.Name)}
         masks |= {n.targets[0].id for n in ast.walk(loop) if isinstance(n, ast.Assign) and len(n.targets) == 1 and isinstance(n.targets[0], ast.Name)
                   and isinstance(n.value, ast.BinOp) and isinstance(n.value.op, ast.RShift) and isinstance(n.value.left, ast.Name)
                   and n.value.left.id == n.targets[0].id}
         bytes_ = {n.targets[0].id for n in ast.walk(loop) if isinstance(n, ast.Assign) and len(n.targets) == 1 and isinstance(n.targets[0], ast.Name)
-                  and isinstance(n.value, ast.Call) and isinstance(n.value.func, ast.Attribute) and n.value.func.attr == "_read_uint8"}
-        if len(masks) != 1 or len(bytes_) != 1:
+                  and isinstance(n.value, (ast.Call, ast.Subscript)) and any(isinstance(x, ast.Attribute) and x.attr in ("_read_uint8", "_read_bytes")
+                                                                          for x in ast.walk(n.value))}
+        if len(masks) > 1 or len(bytes_) != 1:
             raise ops.Unsupported(f"_read_boolean_vector: loop roles not recognised (mask {sorted(masks)}, byte {sorted(bytes_)})")
-        return masks.pop(), bytes_.pop(), worklist_of(loop)
+        return (masks.pop() if masks else None), bytes_.pop(), worklist_of(loop)
 
     def bv_havoc(ex, st):
         m, b, _r = bv_names(ex)
-        st.bind(m, VInt(z3.BitVec(fresh_name(m), 8)))      # both range over bytes (invariant below)
+        if m is not None:
+            st.bind(m, VInt(z3.BitVec(fresh_name(m), 8)))      # ranges over bytes (invariant below)
         st.bind(b, VInt(z3.BitVec(fresh_name(b), 8)))
         common.havoc_pos(ex, st, st.obj(top(ex, "self").ref).data["_stream"])
 
@@ -375,9 +380,10 @@ def byte_contracts():
         pos = common.bytesio_pos(lc.st, stream)
         r, q = i % 8, i / 8
         conj = [pos == p0 + (i + 7) / 8,
-                ops.eq_term(lc[m], VInt(mask_after(r))),
                 z3.Implies(r != 0, ops.eq_term(lc[b], VInt(SB(s, p0 + q)))),
                 z3.Or(i == 0, pos <= SLEN(s))]
+        if m is not None:
+            conj.append(ops.eq_term(lc[m], VInt(mask_after(r))))
         if lc.extra.get("phase") == "preserve":
             ref = lc.entry.lookup(res).ref
             new = [v for (rf, v) in new_events(lc, "appends") if rf == ref]
@@ -526,8 +532,8 @@ class RoleSpec(LoopSpec):
     """a loop specification selected by WHAT the loop iterates over (match(ex, st, iterable, node)), not by its position in the
     function: it follows the loop into a helper the code was refactored into (helpers are executed in place)"""
 
-    def __init__(self, match, inv=None, havoc=(), label=""):
-        super().__init__(inv=inv, havoc=havoc, label=label)
+    def __init__(self, match, inv=None, havoc=(), label="", unroll=None):
+        super().__init__(inv=inv, havoc=havoc, label=label, unroll=unroll)
         self.match = match
 
 
@@ -734,6 +740,51 @@ class C10Executor(Executor):
                     self.unsupported(n, f"{o.kind} out of a comprehension")
         return out
 
+    def s_While(self, s, st):
+        spec = None
+        if self.contract is not None:
+            for key, sp in self.contract.loops.items():
+                if isinstance(key, tuple) and key[0] == "role" and sp.match(self, st, None, s):
+                    spec = sp
+                    break
+        self._role_stack = tuple(self._role_stack) + (spec,)
+        self._loop_nodes = tuple(self._loop_nodes) + (s,)
+        try:
+            return super().s_While(s, st)
+        finally:
+            self._role_stack = self._role_stack[:-1]
+            self._loop_nodes = self._loop_nodes[:-1]
+
+    def call(self, st, f, args, kwargs, node):
+        if isinstance(f, VFunc) and f.how == "classattr" and (f.a, f.b) == ("int", "from_bytes"):
+            r = self._int_from_bytes(st, args, kwargs, node)
+            if r is not None:
+                return r
+        return super().call(st, f, args, kwargs, node)
+
+    def _int_from_bytes(self, st, args, kwargs, node):
+        """int.from_bytes(b, 'little' | 'big') (unsigned) for up to 8 bytes: concrete-length bytes or a byte sequence of symbolic length"""
+        order = args[1] if len(args) > 1 else kwargs.get("byteorder")
+        signed = kwargs.get("signed")
+        if not (args and isinstance(order, VStr) and order.const() in ("little", "big")) or (signed is not None and not (isinstance(signed, VBool) and signed.const() is False)):
+            return None
+        b, little = args[0], order.const() == "little"
+        if isinstance(b, VBytes) and len(b.items) <= 8:
+            bs = [self.as_byte(x).t for x in b.items]
+            if not bs:
+                return [(st, VInt(0))]
+            if not little:
+                bs = list(reversed(bs))
+            return [(st, VInt(bs[0] if len(bs) == 1 else z3.Concat(*reversed(bs))))]
+        if isinstance(b, VSeq) and b.is_bytes and little:
+            self.add_vc("call-pre", f"int.from_bytes-at-most-8-bytes@{self.call_ordinal(node, 'from_bytes')}", st.pc, b.length <= 8, loc=self.loc(node))
+            st.assume(b.length <= 8)
+            acc = z3.BitVecVal(0, 64)
+            for i in range(8):
+                acc = acc | z3.If(i < b.length, z3.ZeroExt(56, self.as_byte(b.elem(z3.IntVal(i))).t) << (8 * i), z3.BitVecVal(0, 64))
+            return [(st, VInt(acc))]
+        return None
+
     def loop_spec(self, node):
         if self._role_stack and self._role_stack[-1] is not None and self._loop_nodes and self._loop_nodes[-1] is node:
             return self._role_stack[-1]
@@ -795,6 +846,24 @@ class C10Executor(Executor):
                 n = ops.int_term(b)
                 x = items[0]
                 return [(st, VSeq(z3.If(n < 0, z3.IntVal(0), n), lambda i, x=x: x, x.kind))]
+        if op in ("RShift", "LShift") and isinstance(a, VInt) and isinstance(b, VInt) and a.const() is not None and a.const() >= 0 and b.const() is None \
+                and (op == "RShift" or a.const() < 256):
+            # constant >> n / constant << n with a symbolic n: exact case split over the amounts that matter (ValueError for n < 0)
+            n, c = ops.int_term(b), a.const()
+            st = self.fork_raise(st, n < 0, "ValueError")
+            if st is None:
+                return []
+            if op == "RShift":
+                acc = z3.BitVecVal(0, max(c.bit_length(), 1))
+                for k in range(c.bit_length(), -1, -1):
+                    acc = z3.If(n == k, z3.BitVecVal(c >> k, max(c.bit_length(), 1)), acc)
+                return [(st, VInt(acc))]
+            self.add_vc("call-pre", f"shift-amount-at-most-64@{self.loc(node).split(':')[-1]}", st.pc, n <= 64, loc=self.loc(node))
+            st.assume(n <= 64)
+            acc = z3.BitVecVal(0, 72)
+            for k in range(64, -1, -1):
+                acc = z3.If(n == k, z3.BitVecVal(c << k, 72), acc)
+            return [(st, VInt(acc))]
         if op == "Mod" and isinstance(a, VStr) and a.const() is not None:
             # 'literal %s ... %d' % value / tuple: plain %s / %d fields with str / int arguments
             import re as _re
@@ -2251,8 +2320,19 @@ def parser_contracts():
         if lc.extra.get("phase") == "assume":
             lc.st.assume(numpos_mono_at(s_, q0, i + 1, N))          # lemma numbers-end-monotone, at this index
         if lc.extra.get("phase") == "preserve":
-            v = lc.extra.get("elt")
-            conj.append(ops.eq_term(v, VInt(NUMV(s_, NUMPOS(s_, q0, i - 1)))) if isinstance(v, VInt) else z3.BoolVal(False))
+            if "elt" in lc.extra:                                    # comprehension summarised directly
+                new = [lc.extra["elt"]]
+            else:                                                    # loop (or comprehension executed as a loop): the appended value
+                ref = lc.entry.lookup(worklist_of(cur_loop(lc))).ref
+                if lc.entry.obj(ref).data != []:
+                    raise ops.Unsupported("_parse_pack_info: the size list is not empty before the loop")
+                new = [v for (rf, v) in new_events(lc, "appends") if rf == ref]
+            ok = z3.BoolVal(False)
+            if len(new) == 1 and isinstance(new[0], VInt):
+                ok = ops.eq_term(new[0], VInt(NUMV(s_, NUMPOS(s_, q0, i - 1))))
+            conj.append(ok)
+        if lc.extra.get("phase") == "exit" and "elt" not in lc.extra and lc.ex._loop_nodes:
+            lc.st.bind(worklist_of(cur_loop(lc)), sz_result(lc))      # PY-LIST-ORDER
         return z3.And(conj)
 
     def sz_result(lc):
@@ -2334,7 +2414,7 @@ def parser_contracts():
         requires=req_stream, hyps=pk_hyps, modifies=("self",),
         ensures=[("result-fields-and-position-equal-the-PackInfo-grammar", pk_post)],
         raises=[Raises(BAD, when=pk_raise, label="bad end marker / short stream")],
-        loops=merged({("comp", "*"): CompSpec(inv=sz_inv, result=sz_result, havoc=(havoc_stream,), label=SZ_LABEL)},
+        loops=merged(role(both(is_seq("int"), body_calls("_read_number")), SZ_LABEL, sz_inv, havoc=(havoc_stream,)),
                      role(is_seq(tag="bitvector"), CRC_LABEL, crc_inv, havoc=(havoc_stream,))),
         note="PackInfo grammar of 7zFormat.txt for any numPackStreams; pack position made absolute by the 32-byte signature header"))
 
